@@ -213,7 +213,10 @@ func VerifC61_addWitness() {
 	P, e0, s0 := ts.pendingTime.UnixNano(), ts.levels[0].end.UnixNano(), int64(ts.levels[0].size)
 	behind := vfAnd(P < g.tw, g.tw <= e0-s0)
 	ts.AddWithTime(&c61obs{g.vw}, time.Unix(0, g.tw))
-	if g.tw > P-s0 { // deliberate case split: pending path / direct merge
+	// deliberate case split: the witness belongs into the pending slot iff it falls into the pending bucket
+	// (P-s0, P], or is newer than P and lands in (or opens) the newest finest bucket; otherwise it must be merged
+	// into the past. (The unchanged code also parks it when P < tw <= e0-s0: the known finding.)
+	if g.tw > P-s0 && (g.tw <= P || g.tw > e0-s0) {
 		g.status = 1
 		vfReach("witness pending")
 	} else {
@@ -339,7 +342,7 @@ func VerifC61_history() {
 			if step == wstep {
 				behind = vfAnd(P < g.tw, g.tw <= e0-s0) // zero P/e0 (no add / no tick yet): false unless a tick came first
 				ts.AddWithTime(&c61obs{g.vw}, time.Unix(0, g.tw))
-				if adds == 0 || g.tw > P-s0 {
+				if g.tw > P-s0 && (g.tw <= P || g.tw > e0-s0) { // as in VerifC61_addWitness (zero P/e0 before the first add/tick)
 					g.status = 1
 				} else {
 					g.status = 2
